@@ -120,7 +120,17 @@ class Prop(BaseProp):
                 R, Rs = -R, Rs
             R.p[()] = mpmath.atan2(Y.re, X.re)
             Rs.p[()] = abs(R.p[()])
-            # scale: magnitudes through the quotient
+            # scale: atan2 is a composition (quotient, then atan).  Where the quotient is inside the margined domain of the running-error machinery of C03,
+            # the scale is that first-order bound (it accounts for the rounding of the quotient's own parts); elsewhere the outer step only
+            try:
+                u = mpf(U[64])
+                num, den = (Y, X) if abs(X.re) >= abs(Y.re) else (X, Y)
+                e = pyjet.ej_unary('atan', pyjet.ej_binary('div', pyjet.ej_exact(num), pyjet.ej_exact(den), u), u)
+                for S in Rs.fam:
+                    if S:
+                        Rs.p[S] = max(Rs.p[S], e.err[S] / (64 * u))
+            except pyjet.DomainError:
+                pass
             return R, Rs
         return pyjet.apply_unary(op, J)
 
